@@ -17,11 +17,13 @@
       recursion through another receiver, allocation failure) is named in tools/panic_sites.py and covered by the
       search only.
 
-   2. MODELS.  Totality theorems of the executable models that carry an [outcome], restated here.
+   2. MODELS.  Totality theorems of the executable models that carry an [outcome], restated here: Slice::transform
+      (RIO.Marker) and the element-tree cursor of the HTML body visitors (RIO.C07Models).  The tokenizer model
+      (RIO.HtmlTok) checks every one of its sites, but its totality theorem is not in the tree yet.
 
    3. SEARCH.  Not a theorem: grammar-then-mutate inputs through every public entry point under catch_unwind
       (RIO.C07Run gives the verdict on each observation). *)
-Require Import RIO.Base RIO.Marker RIO.MarkerProofs RIO.C07Run.
+Require Import RIO.Base RIO.Marker RIO.MarkerProofs RIO.C07Models RIO.C07Run.
 Require Import RIOGen.ExtPanicSites.
 Close Scope N_scope.
 
@@ -75,10 +77,10 @@ Theorem C07_keys_distinct : distinct panic_sites = true /\ distinct ledger_keys 
   /\ length ledger_classes = length ledger_keys /\ length ledger_keys = length panic_sites.
 Proof. vm_compute. repeat split; reflexivity. Qed.
 
-(* how the 345 sites are justified: lemma / guard / out-of-model / searched (codes 1 2 3 4), and nothing else *)
+(* how the sites are justified: lemma / guard / out-of-model / searched (codes 1 2 3 4), and nothing else *)
 Theorem C07_ledger_census :
   (length panic_sites, count_class 1 ledger_classes, count_class 2 ledger_classes, count_class 3 ledger_classes,
-   count_class 4 ledger_classes) = (345, 0, 128, 39, 178)
+   count_class 4 ledger_classes) = (344, 18, 125, 38, 163)
   /\ forallb (fun c => N.leb 1 c && N.leb c 4) ledger_classes = true.
 Proof. vm_compute. split; reflexivity. Qed.
 
@@ -90,22 +92,31 @@ Proof. vm_compute. split; reflexivity. Qed.
 Theorem C07_slice_total : forall (from : N) (to : option N) (s : str), exists r, slice_transform from to s = Ok r.
 Proof. exact slice_total. Qed.
 
+(* the element-tree cursor of the HTML body visitors (body_append.rs / body_prepend.rs / body_replace.rs: enter, leave,
+   first): over a non-empty element tree, which is what HtmlBodyVisitor::new guarantees, every sequence of calls returns
+   and the cursor stays inside the tree; model and site numbers in RIO.C07Models *)
+Theorem C07_visitor_cursor_total : forall (len : N) (calls : list vcall) (pos : N), (pos < len)%N ->
+  exists p, v_run len calls pos = Ok p /\ (p < len)%N.
+Proof. exact visitor_cursor_total. Qed.
+
 (* hence the verdict's model bit never fires because of the model itself *)
 Theorem C07_slice_verdict : forall c, returned c = true ->
   (forall from to v, k_slice c = Some (from, to, v) -> o_slice_out c = Some (match slice_transform from to v with Ok r => r | _ => [] end)) ->
   verdict07 c = 0%N.
 Proof.
-  intros c R H. unfold verdict07, slice_agrees. rewrite R. cbn [andb].
+  intros c R H. unfold verdict07, known_bits, slice_agrees. rewrite R.
+  assert (o_panicked c = false) as -> by (unfold returned in R; destruct (o_panicked c); [discriminate|reflexivity]). cbn [andb].
   destruct (k_slice c) as [[[from to] v]|] eqn:E; [|reflexivity].
   rewrite (H from to v eq_refl). destruct (C07_slice_total from to v) as [r Hr]. rewrite Hr. rewrite str_eqb_refl. reflexivity.
 Qed.
 
 (* non-vacuity of the verdict: a panic and a timeout are both reported on both bits *)
 Example C07_verdict_examples :
-  verdict07 {| k_family := 1; k_slice := None; o_panicked := true; o_timed_out := false; o_slice_out := None |} = 5%N
-  /\ verdict07 {| k_family := 1; k_slice := None; o_panicked := false; o_timed_out := true; o_slice_out := None |} = 5%N
-  /\ verdict07 {| k_family := 6; k_slice := Some (3, Some 2, [97;98;99;100])%N; o_panicked := false; o_timed_out := false; o_slice_out := Some [] |} = 0%N
-  /\ verdict07 {| k_family := 6; k_slice := Some (1, Some 3, [97;98;99;100])%N; o_panicked := false; o_timed_out := false; o_slice_out := Some [98]%N |} = 1%N.
+  verdict07 {| k_family := 1; k_slice := None; o_panicked := true; o_timed_out := false; o_slice_out := None; o_known := 0 |} = 5%N
+  /\ verdict07 {| k_family := 1; k_slice := None; o_panicked := false; o_timed_out := true; o_slice_out := None; o_known := 0 |} = 5%N
+  /\ verdict07 {| k_family := 6; k_slice := Some (3, Some 2, [97;98;99;100])%N; o_panicked := false; o_timed_out := false; o_slice_out := Some []; o_known := 0 |} = 0%N
+  /\ verdict07 {| k_family := 1; k_slice := None; o_panicked := true; o_timed_out := false; o_slice_out := None; o_known := 1 |} = 261%N
+  /\ verdict07 {| k_family := 6; k_slice := Some (1, Some 3, [97;98;99;100])%N; o_panicked := false; o_timed_out := false; o_slice_out := Some [98]%N; o_known := 0 |} = 1%N.
 Proof. vm_compute. repeat split; reflexivity. Qed.
 
 Print Assumptions C07_inventory_covered.
@@ -114,4 +125,5 @@ Print Assumptions C07_ledger_not_stale.
 Print Assumptions C07_keys_distinct.
 Print Assumptions C07_ledger_census.
 Print Assumptions C07_slice_total.
+Print Assumptions C07_visitor_cursor_total.
 Print Assumptions C07_slice_verdict.
